@@ -247,6 +247,26 @@ CLAIMED = {
         "Trusted: Coq kernel + vm_compute; no axioms. flax/msgpack are oracles; purity of step is a "
         "hypothesis of the theorem and is what the experiments probe.",
         "DESIGN.md 7/C14"),
+    "C15": (
+        "Coq proof (tf_spec: linearity in the learning rate and lr-independence of the state by "
+        "induction over histories, momentum chain = documented formula, unmerge o merge = id, zero "
+        "padding delivers the same values, padded-root theorem) + per-step translation validation of "
+        "tearfree.optimizer.tearfree through the public API",
+        "Theorems in Properties/C15.v for every configuration, history and oracle answer: the update is "
+        "exactly linear in lr(t) and the optimizer state does not depend on lr; the momentum / weight "
+        "decay chain equals the documented order; unmerge(merge(g)) = g and merged sizes; roots meet "
+        "root^(2 rank) * cov = projector onto the kept eigenspace with the per-block 1e-6 cut-off; zero "
+        "padding rows leave the statistics, the roots and the values delivered for real entries "
+        "unchanged (abstract algebra + concrete list-matrix versions). Tie: init/update run eagerly "
+        "(float64 Shampoo, float32 Sketchy) over configurations x trees x histories; per step and leaf "
+        "Coq recomputes from the implementation's own previous state everything upstream of the "
+        "kernels (C06.Ref shapes, statistics, FD recurrence via C09.Model), checks stored roots / "
+        "captured SVDs against their specs, then the graft / momentum / weight decay / lr chain and "
+        "the next state; lr-linearity and lr-independence are checked bitwise on the implementation.",
+        "Trusted: Coq kernel + vm_compute; no axioms. eigh / SVD / optax.adafactor are oracles checked "
+        "per call; uniqueness of the pseudo-inverse root is a named hypothesis; steps with an eigenvalue "
+        "at the cut-off or beyond the amplification cap are counted and excluded.",
+        "DESIGN.md 7/C15"),
 }
 
 NOT_YET = {}
